@@ -141,6 +141,9 @@ def run(R):
         sty = [f['ty'] for f in sadt['variants'][0]['fields'] if f['n'] == 'source']
         R.check(bool(sty) and 'Fuse<' in sty[0], 'C02.R3', 'source-field-type', 'tonic/src/codec/encode.rs (struct EncodedBytes)', 'field source: %s' % (sty[0] if sty else None))
 
+        # the stream ends at its first error: a parked status is replayed before the source is polled again
+        check_stash_replay_first(R, tonic, 'C02.R3')
+
     # ---------------------------------------------------------------- R8 status metadata written whole
     R.describe('C02.R8', 'an error status is written with all of its metadata: add_header extends the header map with the whole (sanitised) metadata map, never entry-by-entry insert (which keeps only the last of repeated values)')
     with R.guard('C02.R8'):
